@@ -231,7 +231,7 @@ def main():
     run = Run("C13", a.tier, "translation_validation")
     ops = ["split", "canon_sign", "permute_num", "cancel", "factor_eri", "factor_denom",
            "sym_denom", "sym_denom_back", "diag_fock", "block_diag_fock", "cancel", "permute_num"]
-    n = 360 if quick else 6000
+    n = 960 if quick else 9000
     base = seed() * 1000003 + 1300
     items = [(ops[k % len(ops)], base + k) for k in range(n)]
     results = pmap(run_case, items, limit=240 if quick else 900)
